@@ -33,8 +33,73 @@ def _sub(chk, modname):
     cov['discharged'] += sc.get('discharged', 0)
 
 
+def fcgi_rebind_probe(chk):
+    # (a failure is only reported when it repeats on a second, different port: another process of this machine may
+    # grab the port in the instant it is closed)
+    first = _fcgi_rebind_once(chk, report=False)
+    if first == 'failed':
+        _fcgi_rebind_once(chk, report=True)
+
+
+def _fcgi_rebind_once(chk, report):
+    """Runtime probe (real kernel, loopback; outside the model): the shared socket of an [fcgi-program] group is closed
+    when its last child is reaped and created again by the next spawn (FastCGISubprocess.before_spawn, which runs in
+    transition() outside every guard of the main loop).  A child that served a connection and exited leaves the port in
+    TIME_WAIT; the next create_and_bind() must still succeed, or the OSError ends runforever()."""
+    import socket
+    from supervisor.datatypes import InetStreamSocketConfig
+    from supervisor.socket_manager import SocketManager
+
+    class Log(object):
+        def info(self, *a):
+            pass
+        debug = warn = error = critical = info
+    try:
+        probe = socket.socket(socket.AF_INET, socket.SOCK_STREAM)
+        probe.bind(('127.0.0.1', 0))
+        port = probe.getsockname()[1]
+        probe.close()
+    except (OSError, socket.error) as e:
+        chk.coverage['fcgi_rebind_probe'] = 'skipped: no loopback (%s)' % e
+        return
+    rounds = 0
+    mgr = SocketManager(InetStreamSocketConfig('127.0.0.1', port), logger=Log())
+    for k in range(4):
+        try:
+            ref = mgr.get_socket()               # what before_spawn() does
+        except (OSError, socket.error) as e:
+            if k == 0:
+                chk.coverage['fcgi_rebind_probe'] = 'skipped: port taken (%s)' % e
+                return
+            if not report:
+                return 'failed'
+            chk.violation({'kind': 'fcgi socket cannot be created again after its children served a connection and exited',
+                           'history': 'tcp fcgi socket on 127.0.0.1: get_socket, one connection accepted and closed by the '
+                                      'child, last reference dropped (child reaped), get_socket again (round %d)' % k,
+                           'error': repr(e),
+                           'explanation': 'before_spawn() runs in transition() outside every guard: this OSError ends the '
+                                          'main loop although only a child served a request and exited'})
+            return
+        try:
+            c = socket.create_connection(('127.0.0.1', port), timeout=5)
+            a, _ = ref.accept()
+            a.close()                            # the "child" closes first: TIME_WAIT on the fcgi port
+            c.close()
+        except (OSError, socket.error) as e:
+            chk.coverage['fcgi_rebind_probe'] = 'skipped: cannot connect on loopback (%s)' % e
+            return
+        ref = None                               # after_finish(): the last reference goes, the socket is closed
+        if mgr.is_prepared():
+            chk.violation({'kind': 'fcgi socket still open after its last reference was dropped', 'round': k})
+            return
+        rounds += 1
+    chk.coverage['fcgi_rebind_probe'] = '%d create/serve/close rounds on 127.0.0.1:%d' % (rounds, port)
+    chk.coverage['evaluations'] += rounds
+
+
 def run(chk):
     life_check.run_property(chk, 'C06', 'props/C06.v')
+    fcgi_rebind_probe(chk)
     _sub(chk, 'c10')      # which runs the C09 correspondence itself
     chk.coverage['rule'] += ('; plus the C10 (listener protocol) and C09 (event pools) correspondences, run here because an '
                              'exception escaping the listener parser, the pool dispatch or finish()/drain() ends the main loop')
